@@ -65,7 +65,7 @@ class TSPH(Harness):
         pre = []
         if self.coords is None:
             coords = ctx.fresh_arr(tag + ".coordinates", (n, 2), np.float32)
-            pre += [S.fp_in(x, 0.0, 1.0) for x in coords.a.reshape(-1)]
+            pre += [S.fp_in(x, 0.0, 1.0, tiny=2.0 ** -24) for x in coords.a.reshape(-1)]
         else:
             coords = SV(self.coords, np.float32)
         pos = ctx.fresh_arr(tag + ".position", (), np.int32, -1, n - 1)
